@@ -28,27 +28,28 @@ theorem sender_numbers_consecutively (ch : Nat) (ops : List (Env × C01.Op)) (i 
     Desc (o % 1024) ((C01.run (({} : Conn).seqInit i o) ops).outRelOf ch) (relTags ch (sentOf (({} : Conn).seqInit i o) ops [])) :=
   (run_seq ch (o % 1024) ops _ [] ⟨rfl, by show (({} : Conn).seqInit i o).outRelOf ch = o % 1024; rfl⟩).desc
 
-/-! ## the theorem -/
+/-! ## the theorems -/
 
-/-- **in the order sent, at most once, intact — across the link.**  `S` and `R` are the two ends, each reached from
-`utcp_sequence_init` by any history of sends, flushes and incoming packets; every packet `R` is given is (the `ReceivedPacket` input of)
-a datagram `S` emitted — in any order, any number of times, or never; both ends use the magic-header configuration `(mb, mg)`; the
-initial sequence numbers mirror each other as the handshake guarantees (`C05.agree`); the channel has carried fewer than 1024 reliable
-bunches.  Then the reliable bunches `R` delivered on the channel, in delivery order, are a sub-sequence of the reliable bunches `S`
-accepted on it, in sending order, compared on everything the application sees *and* the channel sequence number. -/
-theorem delivered_in_sending_order_partial (mb mg : Nat) (hfit : mg < 2 ^ mb) (ch : Nat)
+/-- **the receiver's number is the sender's number.**  `S` and `R` are the two ends, each reached from `utcp_sequence_init` by any
+history of sends, flushes and incoming packets; every packet `R` is given is (the `ReceivedPacket` input of) a datagram `S` emitted —
+in any order, any number of times, or never; both ends use the magic-header configuration `(mb, mg)`; the initial sequence numbers
+mirror each other as the handshake guarantees (`C05.agree`); the channel has carried fewer than 1024 reliable bunches.  Then every
+reliable bunch `R` hands to its application on the channel is — in everything the application sees — a bunch `S` accepted on that
+channel, and the absolute sequence number `R` reconstructed for it is the number `S` gave it. -/
+theorem numbers_agree_partial (mb mg : Nat) (hfit : mg < 2 ^ mb) (ch : Nat)
     (opsS : List (Env × C01.Op)) (hS : ∀ p ∈ opsS, p.1.magicBits = mb ∧ p.1.magic = mg) (iS oS : Int)
     (opsR : List (Env × C01.Op)) (hR : ∀ p ∈ opsR, p.1.magicBits = mb ∧ p.1.magic = mg) (iR oR : Int)
     (hmirror : oS % 1024 = iR % 1024)
     (hlink : C04.FromLink (C01.run (({} : Conn).seqInit iS oS) opsS) opsR)
-    (hsmall : (accepted ch (sentOf (({} : Conn).seqInit iS oS) opsS [])).length < 1024) :
-    ((delivered ch (C01.run (({} : Conn).seqInit iR oR) opsR).log).map view).Sublist
-      ((accepted ch (sentOf (({} : Conn).seqInit iS oS) opsS [])).map view) := by
+    (hsmall : (accepted ch (sentOf (({} : Conn).seqInit iS oS) opsS [])).length < 1024)
+    (g : List Bunch) (hg : Event.recv g ∈ (C01.run (({} : Conn).seqInit iR oR) opsR).log) (q : Bunch) (hq : q ∈ g)
+    (hr : q.bReliable = true) (hc : q.chIndex = ch) :
+    ∃ b ∈ accepted ch (sentOf (({} : Conn).seqInit iS oS) opsS []), seen q = seen b ∧ q.chSeq = b.chSeq := by
   -- names
   generalize hsent : sentOf (({} : Conn).seqInit iS oS) opsS [] = sent at hsmall ⊢
   have hdesc := sender_numbers_consecutively ch opsS iS oS
   rw [hsent] at hdesc
-  obtain ⟨htags, hdec, hlen⟩ := desc_facts _ _ _ hdesc
+  obtain ⟨htags, _, hlen⟩ := desc_facts _ _ _ hdesc
   generalize hhi : (C01.run (({} : Conn).seqInit iS oS) opsS).outRelOf ch = hi at htags hlen hdesc
   have hn : hi - oS % 1024 < 1024 := by
     have : (accepted ch sent).length = (relTags ch sent).length := by unfold accepted relTags; simp
@@ -68,55 +69,64 @@ theorem delivered_in_sending_order_partial (mb mg : Nat) (hfit : mg < 2 ^ mb) (c
     ⟨hmirror.symm ▸ rfl, by omega, by intro ch' x hx; have : (({} : Conn).seqInit iR oR).getChan ch' = none := rfl; rw [this] at hx; cases hx⟩
   obtain ⟨wfin, wadds⟩ := receiver_run_w sent ch (oS % 1024) hi hQF opsR _ hw0 hoff
   have hord := C01.run_order opsR _ (C01.fresh_order iR oR)
-  generalize hRdef : C01.run (({} : Conn).seqInit iR oR) opsR = R at wfin wadds hord ⊢
-  have hRlog : ∀ g, Event.recv g ∈ R.log → ∀ q ∈ g, (∃ b ∈ sent, seen q = seen b ∧ (q.bReliable = true → q.chSeq % 1024 = b.chSeq % 1024)) ∧
-      (q.bReliable = true → oS % 1024 < q.chSeq) := by
-    intro g hg q hq
-    refine ⟨C04.delivered_were_sent sent opsR iR oR hoff g (by rw [hRdef]; exact hg) q hq, ?_⟩
+  obtain ⟨b, hb, hseen, hres⟩ := C04.delivered_were_sent sent opsR iR oR hoff g hg q hq
+  generalize hRdef : C01.run (({} : Conn).seqInit iR oR) opsR = R at wfin wadds hord hg
+  have hlow : oS % 1024 < q.chSeq := by
     obtain ⟨new, hlog, hnew⟩ := wadds
     rw [hlog] at hg
     rcases List.mem_append.mp hg with hg | hg
-    · exact hnew _ hg g rfl q hq
+    · exact hnew _ hg g rfl q hq hr
     · have hl : (({} : Conn).seqInit iR oR).log = [] := rfl
       rw [hl] at hg; cases hg
-  -- every delivered bunch is, exactly, one of the accepted ones
-  have hexact : ∀ q ∈ delivered ch R.log, view q ∈ (accepted ch sent).map view := by
+  obtain ⟨f1, f2⟩ := seen_fields q b hseen
+  have hbon : onCh ch b = true := by unfold onCh; rw [← f2, ← f1, hr, hc]; simp
+  have hbt : b.chSeq ∈ relTags ch sent := by
+    unfold relTags; exact List.mem_map.mpr ⟨b, List.mem_filter.mpr ⟨hb, hbon⟩, rfl⟩
+  have hbr := htags _ hbt
+  -- the receiver's number is at most its counter, which is at most `hi`
+  have hup : q.chSeq ≤ hi := by
+    have hqs : q.chSeq ∈ relLog ch R.log := mem_relLog ch R.log g q hg hq hr hc
+    cases hx : R.getChan ch with
+    | none =>
+      have := hord.absent ch (by unfold chanRecv; rw [hx]; rfl)
+      rw [this] at hqs; cases hqs
+    | some x =>
+      have h1 := ((hord.chans ch _ (chanRecv_of_getChan hx)).dl.2) _ hqs
+      have h2 := (wfin.chans ch x hx).high rfl
+      simp only [recvPart] at h1
+      omega
+  have heq : q.chSeq = b.chSeq := by
+    have := hres hr; omega
+  refine ⟨b, ?_, hseen, heq⟩
+  unfold accepted
+  exact List.mem_reverse.mpr (List.mem_filter.mpr ⟨hb, hbon⟩)
+
+/-- **in the order sent, at most once, intact — across the link** (same hypotheses): the reliable bunches `R` delivered on the channel,
+in delivery order, are a sub-sequence of the reliable bunches `S` accepted on it, in sending order, compared on everything the
+application sees *and* the channel sequence number. -/
+theorem delivered_in_sending_order_partial (mb mg : Nat) (hfit : mg < 2 ^ mb) (ch : Nat)
+    (opsS : List (Env × C01.Op)) (hS : ∀ p ∈ opsS, p.1.magicBits = mb ∧ p.1.magic = mg) (iS oS : Int)
+    (opsR : List (Env × C01.Op)) (hR : ∀ p ∈ opsR, p.1.magicBits = mb ∧ p.1.magic = mg) (iR oR : Int)
+    (hmirror : oS % 1024 = iR % 1024)
+    (hlink : C04.FromLink (C01.run (({} : Conn).seqInit iS oS) opsS) opsR)
+    (hsmall : (accepted ch (sentOf (({} : Conn).seqInit iS oS) opsS [])).length < 1024) :
+    ((delivered ch (C01.run (({} : Conn).seqInit iR oR) opsR).log).map view).Sublist
+      ((accepted ch (sentOf (({} : Conn).seqInit iS oS) opsS [])).map view) := by
+  have hexact : ∀ q ∈ delivered ch (C01.run (({} : Conn).seqInit iR oR) opsR).log,
+      view q ∈ (accepted ch (sentOf (({} : Conn).seqInit iS oS) opsS [])).map view := by
     intro q hq
-    obtain ⟨g, hg, hqg, hr, hc⟩ := delivered_mem ch R.log q hq
-    obtain ⟨⟨b, hb, hseen, hres⟩, hlow⟩ := hRlog g hg q hqg
-    obtain ⟨f1, f2⟩ := seen_fields q b hseen
-    have hbon : onCh ch b = true := by unfold onCh; rw [← f2, ← f1, hr, hc]; simp
-    have hbt : b.chSeq ∈ relTags ch sent := by
-      unfold relTags; exact List.mem_map.mpr ⟨b, List.mem_filter.mpr ⟨hb, hbon⟩, rfl⟩
-    have hbr := htags _ hbt
-    -- the receiver's number is at most its counter, which is at most `hi`
-    have hup : q.chSeq ≤ hi := by
-      have hqs : q.chSeq ∈ relLog ch R.log := by rw [← delivered_seqs]; exact List.mem_map.mpr ⟨q, hq, rfl⟩
-      cases hx : R.getChan ch with
-      | none =>
-        have := hord.absent ch (by unfold chanRecv; rw [hx]; rfl)
-        rw [this] at hqs; cases hqs
-      | some x =>
-        have h1 := ((hord.chans ch _ (chanRecv_of_getChan hx)).dl.2) _ hqs
-        have h2 := (wfin.chans ch x hx).high rfl
-        simp only [recvPart] at h1
-        omega
-    have heq : q.chSeq = b.chSeq := by
-      have := hres hr; have := hlow hr; omega
-    refine List.mem_map.mpr ⟨b, ?_, (view_eq q b hseen heq).symm⟩
-    unfold accepted
-    exact List.mem_reverse.mpr (List.mem_filter.mpr ⟨hb, hbon⟩)
+    obtain ⟨g, hg, hqg, hr, hc⟩ := delivered_mem ch _ q hq
+    obtain ⟨b, hb, hseen, heq⟩ := numbers_agree_partial mb mg hfit ch opsS hS iS oS opsR hR iR oR hmirror hlink hsmall g hg q hqg hr hc
+    exact List.mem_map.mpr ⟨b, hb, (view_eq q b hseen heq).symm⟩
+  have hord := C01.run_order opsR _ (C01.fresh_order iR oR)
+  obtain ⟨_, hdec, _⟩ := desc_facts _ _ _ (sender_numbers_consecutively ch opsS iS oS)
   -- both lists are strictly increasing in the sequence number
-  have hD : (((delivered ch R.log).map view).map (·.chSeq)).Pairwise (· < ·) := by
-    have : ((delivered ch R.log).map view).map (·.chSeq) = relLog ch R.log := by
+  have hD : (((delivered ch (C01.run (({} : Conn).seqInit iR oR) opsR).log).map view).map (·.chSeq)).Pairwise (· < ·) := by
+    have : ((delivered ch (C01.run (({} : Conn).seqInit iR oR) opsR).log).map view).map (·.chSeq) = relLog ch (C01.run (({} : Conn).seqInit iR oR) opsR).log := by
       rw [List.map_map, ← delivered_seqs]; rfl
     rw [this]; exact hord.increasing ch
-  have hL : (((accepted ch sent).map view).map (·.chSeq)).Pairwise (· < ·) := by
-    have : ((accepted ch sent).map view).map (·.chSeq) = (relTags ch sent).reverse := by
-      unfold accepted relTags
-      rw [List.map_map, List.map_reverse]; rfl
-    rw [this, List.pairwise_reverse]
-    exact hdec.imp (fun h => h)
+  have hL : (((accepted ch (sentOf (({} : Conn).seqInit iS oS) opsS [])).map view).map (·.chSeq)).Pairwise (· < ·) :=
+    accepted_increasing ch _ hdec
   refine sublist_of_increasing (·.chSeq) _ _ hL hD ?_
   intro d hd
   obtain ⟨q, hq, rfl⟩ := List.mem_map.mp hd
